@@ -4,6 +4,11 @@ import json, os
 HERE = os.path.dirname(os.path.dirname(os.path.abspath(__file__)))
 ALL = ["C%02d" % i for i in range(1, 21)]
 CHECKS = {
+ "C11": dict(
+   technique="TLA+ spec Decl.tla: every legal declaration (type, selector, ordered attribute list, entity decoration, documentation placement, dummy/local) and every call shape with a cursor is an initial state; the spec computes the equivalent declaration record and the active parameter; rendered declarations are hovered and calls are probed with signatureHelp, the parsed answers are compared with the spec state",
+   text="13k states: 8 types x 8 selectors x attribute lists of length <=2 from 12 attributes x 5 decorations x 5 doc placements x dummy/local (Legal validated with gfortran on a sample), and call shapes of <=3 arguments over plain/nested/string/keyword arguments; own documentation must appear on the entity and on no neighbour; procedure hover must list the dummy with the same declaration.",
+   note="Trusted: TLC, the hover normaliser (case, blanks, attribute order), renderer. Positions inside nested parentheses and doc blocks separated by a blank line are don't-care.",
+   design="4/C11"),
  "C20": dict(
    technique="TLA+ spec Cycles.tla: shapes (relation kind x cycle length x tail) are initial states, the reference walker with a visited set is model-checked to take at most T+L steps and the walker without one is refuted; every shape is rendered to a workspace and, in a killable child process, indexed, diagnosed and queried with every positional request at every identifier",
    text="7 relation kinds (USE, EXTENDS with overriding bindings, submodule ancestry, pointer =>, ASSOCIATE, procedure binding =>, INCLUDE) x cycle lengths 1..3 (quick) / 1..4 x tails 0..1: the child must finish within the wall-clock limit and no request may answer with an internal error.",
